@@ -23,7 +23,7 @@ LIT = ["lt", "gt", "amp", "sl", "ex", "hy", "eq", "dq", "sq", "lb", "rb", "nl", 
 def run(ctx):
     quick = ctx.tier == "quick"
     rnd = random.Random(ctx.seed)
-    cfg = dict(lit=LIT if not quick else LIT, shapes=["call", "strbrace", "dictlit", "multiline", "strdollar", "samecall"] if quick else list(IC.SHAPES)[:9] + ["multiline", "samecall"],
+    cfg = dict(lit=LIT if not quick else LIT, shapes=["call", "strbrace", "dictlit", "multiline", "strdollar", "samecall", "strent"] if quick else list(IC.SHAPES)[:9] + ["multiline", "samecall", "strent"],
                contexts=["textmode"], maxparts=3 if quick else 4, maxdol=2 if quick else 3, maxstack=0)
     recs = IC.run_spec(ctx, "InterpTextMode", cfg)
     IC.replay(ctx, recs, "textmode")
